@@ -75,14 +75,16 @@ def export_scenario(kind, with_bias):
     s.vars.update({"w": w, "b": b})
     q, exp = quantizer_stub(kind, s, ip)
     bq = Obj(ExtClass("quantized_bits"), {"alpha": None, "__call__": lambda ip_, o, a, k: SNum(QBIAS(Q.num_value(a[0])), "tensor")}) if with_bias == "q" else None
-    if with_bias == "po2b":
-      # a signed power-of-two BIAS behind any kernel kind: its (sign, exponent) pair must sit at the bias' own index
+    if with_bias in ("po2b", "relu_po2b"):
+      # a power-of-two BIAS behind any kernel kind: its (sign, exponent) pair must sit at the bias' own index; an UNSIGNED
+      # po2 bias (relu_po2b) must not make the layer forget that an earlier weight is signed (seed c14-8)
       eb, sgb = z3.Int("e_bias"), z3.Int("sgn_bias")
       s.vars.update({"e_bias": eb, "sgn_bias": sgb})
-      ip.assume(z3.Or(sgb == 1, sgb == -1))
+      ip.assume(z3.Or(sgb == 1, sgb == -1) if with_bias == "po2b" else sgb == 1)
       qb_out = z3.ToReal(sgb) * P(eb)
       s.hints.extend([eb])
-      bq = Obj(ExtClass("quantized_po2"), {"__call__": lambda ip_, o, a, k: SNum(qb_out, "tensor")})
+      bq = Obj(ExtClass("quantized_po2" if with_bias == "po2b" else "quantized_relu_po2"),
+               {"__call__": lambda ip_, o, a, k: SNum(qb_out, "tensor")})
     qs = [q] + ([bq] if with_bias else [])
     ws = [SNum(w, "tensor")] + ([SNum(b, "tensor")] if with_bias else [])
     stored = []
@@ -106,10 +108,23 @@ def export_scenario(kind, with_bias):
       return s
     goals = [Q.num_value(stored[0][0]) == qw]
     if with_bias:
-      goals.append(Q.num_value(stored[0][1]) == (qb_out if with_bias == "po2b" else QBIAS(b) if with_bias == "q" else b))
+      goals.append(Q.num_value(stored[0][1]) == (qb_out if with_bias in ("po2b", "relu_po2b") else QBIAS(b) if with_bias == "q" else b))
     s.claim("applied_once", z3.And(*goals))
     ent = saved["dense0"]
     hw = ent["weights"][0]
+    if with_bias == "relu_po2b":
+      s.claim("bias_exponent", Q.num_value(ent["weights"][1]) == z3.ToReal(eb))
+      if kind == "po2":
+        # the signed kernel still needs its sign: the entry carries signs, aligned, and the kernel rebuilds
+        sgs = ent.get("signs") if isinstance(ent, dict) else None
+        aligned = isinstance(sgs, list) and len(sgs) == len(ent["weights"]) == 2
+        s.claim("signs_kept_for_signed_kernel", aligned)
+        if aligned:
+          sv = Q.num_value(sgs[0])
+          s.claim("po2_tuple", z3.And(z3.Or(sv == 1, sv == -1), sv * P(exp["e"]) == qw, Q.num_value(hw) == z3.ToReal(exp["e"])))
+      elif kind in ("fixed", "binary"):
+        s.claim("plain_kernel", Q.num_value(hw) == qw)
+      return s
     if with_bias == "po2b":
       sgs = ent.get("signs") if isinstance(ent, dict) else None
       aligned = isinstance(sgs, list) and len(sgs) == len(ent["weights"]) == 2
@@ -403,8 +418,9 @@ def cases(tier):
       out.append(Case(PROP, MS, "%s_bias%s" % (kind, wb or "none"), export_scenario(kind, wb), bounds=bounds,
                       replay_kind="c14_export", assumptions=ASSUME, term_mode=True, lo=-80, hi=20))
   for kind in ("fixed", "binary", "po2", "relu_po2", "auto_po2"):
-    out.append(Case(PROP, MS, "%s_biaspo2b" % kind, export_scenario(kind, "po2b"), bounds=bounds, replay_kind=None,
-                    assumptions=ASSUME, term_mode=True, lo=-80, hi=20))
+    for bk in ("po2b", "relu_po2b"):
+      out.append(Case(PROP, MS, "%s_bias%s" % (kind, bk), export_scenario(kind, bk), bounds=bounds, replay_kind=None,
+                      assumptions=ASSUME, term_mode=True, lo=-80, hi=20))
   for kind in ("rnn", "folded", "pool"):
     out.append(Case(PROP, MS, "branch_%s" % kind, special_scenario(kind), bounds=bounds, replay_kind=None,
                     assumptions=ASSUME, term_mode=True))
